@@ -564,7 +564,110 @@ def work_bfs(shard):
     return part
 
 
+# ---------------------------------------------------------------------------
+# leg after-failure: statements that fail part-way must leave the string memory fully usable
+
+# (statement, kind): every one of them fails (the error code is not this leg's subject, only that it is a BASIC error)
+FAILING = [
+    b'CHAIN "NOSUCH"', b'CHAIN "NOSUCH",,ALL', b'CHAIN MERGE "NOSUCH"', b'CHAIN "THERE",999', b'CHAIN "THERE",999,ALL',
+    b'CHAIN MERGE "THERE",999', b'CHAIN MERGE "THERE",,DELETE 7-8', b'LOAD "NOSUCH"', b'RUN "NOSUCH"', b'MERGE "NOSUCH"',
+    b'RUN 999', b'A$=STRING$(300,"x")', b'A$=B$+B$+CHR$(300)', b'OPEN "NOSUCH" FOR INPUT AS 1', b'DIM Z$(30000)',
+    b'ERASE NOPE$', b'A$=FNQ$(1)', b'SWAP A$,X', b'LSET A$=5', b'MID$(A$,0)="a"', b'A$=FNS$(B$+CHR$(300))',
+    b'C$(3)=B$+"k"', b'A$=LEFT$(B$+B$,-1)', b'PRINT #9,B$+B$', b'FIELD #1,9 AS A$', b'A$=SPACE$(255)+B$',
+    b'COMMON A$:CHAIN "NOSUCH"', b'INPUT #3,A$', b'LINE INPUT #3,B$', b'READ A$',
+]
+AF_CONTEXTS = ('direct', 'trapped')
+AF_MEMORY = ('big', 'f600')
+
+
+def after_failure_case(part, path, fi, ctxname, mem):
+    H = _H()
+    stmt = FAILING[fi]
+    case = {'statement': stmt.decode('latin-1'), 'context': ctxname, 'memory': mem, 'fi': fi}
+    s = H.new_session(video='cga', devices={'C:': path}, current_device='C:')
+    try:
+        _enter(s)
+        if mem == 'big':
+            _setup(s, 65000)
+            rounds, size = 500, 150
+        else:
+            # about 600 bytes free: every few assignments need a collection
+            _setup(s, 30000)
+            f = int(s.evaluate(b'FRE("")'))
+            _setup(s, 30000 - (f - 600))
+            rounds, size = 24, 100
+        for pre in (b'B$="gh"+"ij":A$=B$+"k"', ):
+            r = H.run(s, pre)
+            if r.exc is not None or r.err is not None:
+                raise CheckError('set-up %r failed: %r' % (pre, r))
+        if ctxname == 'direct':
+            r = H.run(s, stmt)
+        else:
+            # from a program line, under an error trap, the program goes on after it
+            for l in (b'900 ON ERROR GOTO 950', b'910 ' + stmt, b'920 PRINT "next":END', b'950 PRINT "trap";ERR:RESUME 920'):
+                r = H.run(s, l)
+                if r.exc is not None or r.err is not None:
+                    raise CheckError('cannot enter %r: %r' % (l, r))
+            r = H.run(s, b'GOTO 900')
+        part.n += 1
+        part.traces += 1
+        if r.exc is not None:
+            part.violation('after-failure/host-exception/%s' % H.exc_key(r.exc), '%r raised %r' % (stmt, r.exc), case)
+            return
+        failed = r.err is not None or b'trap' in r.out
+        part.classes.add('after-failure/%s/%s/%s' % (ctxname, mem, 'failed' if failed else 'no-error'))
+        # churn: many times the free space goes through B$, so collections must happen and must find the garbage
+        churn = b'FOR I=1 TO %d:B$=STRING$(%d,"x")+"y":NEXT' % (rounds, size)
+        frees = []
+        for rnd in (1, 2):
+            r = H.run(s, b'ON ERROR GOTO 0:' + churn)
+            if r.exc is not None:
+                part.violation('after-failure/host-exception/%s' % H.exc_key(r.exc), 'after %r, %r raised %r' % (stmt, churn, r.exc), case)
+                return
+            if r.err is not None:
+                part.violation('after-failure/%s/strings-unusable/error-%s' % (stmt.split(b' ')[0].split(b'=')[0].decode('latin-1'), r.err),
+                               'after the failed %r (%s, %s): %r gives error %s although each round needs %d bytes and the '
+                               'rest is garbage' % (stmt, ctxname, mem, churn, r.err, size + 1), case)
+                return
+            got = s.get_variable('B$')
+            if got != b'x' * size + b'y':
+                part.violation('after-failure/value-wrong', 'after %r and the churn B$ reads %r...' % (stmt, got[:20]), case)
+                return
+            frees.append(s.evaluate(b'FRE("")'))
+        if frees[0] != frees[1]:
+            part.violation('after-failure/free-space-drifts', 'after %r: FRE("") = %r after one churn, %r after two' % (
+                stmt, frees[0], frees[1]), case)
+    finally:
+        try:
+            s.close()
+        except Exception:
+            pass
+
+
+def work_after_failure(shard):
+    H = _H()
+    part = Partial()
+    with H.Scratch() as path:
+        with open(__import__('os').path.join(path, 'THERE.BAS'), 'wb') as f:
+            f.write(b'10 PRINT "there"\r\n20 END\r\n\x1a')
+        for fi, ctxname, mem in shard:
+            after_failure_case(part, path, fi, ctxname, mem)
+    part.sample({'statement': FAILING[shard[0][0]].decode('latin-1'), 'context': shard[0][1], 'memory': shard[0][2]})
+    return part
+
+
 def legs(ctx):
+    from mc.core import chunked
+    af = [(fi, c, m) for fi in range(len(FAILING)) for c in AF_CONTEXTS for m in AF_MEMORY]
+    return _legs_bfs(ctx) + [
+        Leg('after-failure', list(chunked(af, 10)), work_after_failure, exhaustive=True,
+            bound='%d statements that fail part-way (failed CHAIN / LOAD / RUN / MERGE, string expressions abandoned by an error, '
+                  'failed DIM / ERASE / FIELD / file statements) x direct / trapped in a program x ~60000 / 600 bytes free: afterwards '
+                  'a loop that pushes many times the free space through one variable must run twice without error, the value reads '
+                  'back and FRE("") is the same after both runs' % len(FAILING))]
+
+
+def _legs_bfs(ctx):
     if ctx.quick:
         plan = [('f40', 4, 'quick'), ('f24', 3, 'quick'), ('big', 2, 'all')]
         bound = ('14-statement alphabet: all histories <= 4 with 40 bytes free, <= 3 with 24 bytes '
@@ -580,6 +683,8 @@ def legs(ctx):
 
 def replay(ctx, leg, case):
     part = Partial()
+    if leg == 'after-failure':
+        return work_after_failure([(case['fi'], case['context'], case['memory'])])
     hist = tuple(case['history'])
     cfg = hist[0]
     s, ref = rebuild(hist[:-1])
